@@ -37,6 +37,17 @@ attached; observed, reported as a robustness remark, not asserted);
 a flush of a new object whose key is occupied raises ``FlushError``/``IntegrityError`` -
 refusals keep the property.  Library exceptions of those documented kinds end the step
 (the session is rolled back when it asks for it); anything else crashes the shard.
+Objects INSERTed in the still open transaction are not expunged, keys claimed by an
+attached object whose row is gone are not re-used, and P/C get explicit never re-used
+ids: each of these would let a *second* object legitimately claim a key of a row that
+never was committed (the library answers the flush with its "Identity map already had an
+identity" warning).  A history ends at its first violation.
+
+Fires on the tree as of this writing (candidate genuine defect, see the group report):
+``detached-object-in-identity-map-after-pk-switch`` - a persistent object whose primary
+key was changed + flushed and which is then expunged is put back into
+``identity_map`` by ``rollback()`` (``SessionTransaction._restore_snapshot`` walks
+``_key_switches`` without checking that the state still belongs to the session).
 """
 from __future__ import annotations
 
